@@ -2,7 +2,7 @@
 from .. import env, histgen, session, wire, refmatch as rm
 from ..runner import Prop, Stage, Result
 
-PROFILE = dict(reuse=0.7, weights=dict(delete=16, bind=14, message=50, server_event=10, deep=4, sync=6))
+PROFILE = dict(reuse=0.7, weights=dict(newer=4, delete=16, bind=14, message=50, server_event=10, deep=4, sync=6))
 
 
 def universe(specs, dialect):
@@ -97,7 +97,7 @@ class Semantics(Stage):
 class EnumArgs(Semantics):
     """dedicated class: universes rich in enum-typed arguments (labels, bitfield unions) x argument-focused matchers"""
     name = 'enum-arguments'
-    PROFILE = dict(reuse=0.5, weights=dict(delete=6, bind=10, message=24, server_event=4, sync=2, enum=54))
+    PROFILE = dict(reuse=0.5, weights=dict(newer=4, delete=6, bind=10, message=24, server_event=4, sync=2, enum=54))
 
     def examples(self, tier):
         return 170 if tier == 'quick' else 14 * 1700
@@ -114,7 +114,7 @@ class ValueKinds(Semantics):
     """dedicated class: arguments of different kinds with colliding values (Int 7, Fd 7, fixed 7.0, "7", object id 7)
     x value-focused matchers: cross-kind confusion of value matchers"""
     name = 'value-kinds'
-    PROFILE = dict(reuse=0.5, weights=dict(delete=4, bind=8, message=14, sync=6, kinds=60, enum=8))
+    PROFILE = dict(reuse=0.5, weights=dict(newer=4, delete=4, bind=8, message=14, sync=6, kinds=60, enum=8))
 
     def examples(self, tier):
         return 170 if tier == 'quick' else 14 * 1700
